@@ -19,7 +19,7 @@ from typing import List
 
 from pyparsing import Keyword, Word, alphanums, alphas, nums, ZeroOrMore, OneOrMore
 from pyparsing import Optional, Suppress, Group, Combine, Forward, Literal
-from pyparsing import MatchFirst, ParseResults, ParserElement
+from pyparsing import MatchFirst, ParseResults, ParserElement, Empty
 from pyparsing import infix_notation, rest_of_line, one_of, OpAssoc
 
 ParserElement.enable_packrat()
@@ -138,7 +138,7 @@ class ANMLGrammar:
         boolean_expression = Forward()
         quantified_expression = Forward()
 
-        expression_list = Optional(Group(boolean_expression)) - ZeroOrMore(
+        expression_list = Optional(Group(boolean_expression)) + ZeroOrMore(
             Suppress(TK_COMMA) - Group(boolean_expression)
         )
         fluent_ref = Group(
@@ -146,8 +146,8 @@ class ANMLGrammar:
             - Group(
                 Optional(
                     Suppress(TK_L_PARENTHESIS)
-                    - expression_list
-                    - Suppress(TK_R_PARENTHESIS)
+                    + expression_list
+                    + Suppress(TK_R_PARENTHESIS)
                 )
             )
         )
@@ -188,9 +188,15 @@ class ANMLGrammar:
         conditional_expression = Forward()
         expression = conditional_expression | boolean_expression
 
-        timed_expression = Group(Optional(interval)).set_results_name(
-            "interval"
-        ) + Group(expression).set_results_name("expression")
+        # a parenthesized expression can also be read as an interval: when no
+        # expression follows the interval, retry without it
+        timed_expression = (
+            Group(interval).set_results_name("interval")
+            + Group(expression).set_results_name("expression")
+        ) | (
+            Group(Empty()).set_results_name("interval")
+            + Group(expression).set_results_name("expression")
+        )
 
         conditional_expression <<= (
             keyword(TK_WHEN)
